@@ -162,9 +162,16 @@ func runC07(seed int64, n int) {
 	// transaction that stops at the first error); everything before it builds the pre-state.
 	// (a transaction body that ignores its operations' errors and commits is not given
 	// storage faults: swallowing an I/O error and committing is outside the property)
-	cases := opCases(seed, n, allFamilies, func(p *hx.Profile) { p.MinSteps, p.MaxSteps = 6, 30 },
-		func(st *hx.Step) bool { return isWrite(st) && !(st.Block && !st.StopOnErr) }, covered)
+	// (of each kind, occurrences that change the database in their pre-state come first: a fault
+	// in an operation that has nothing to do shows nothing)
+	cases := opCasesWhere(seed, n, allFamilies, func(p *hx.Profile) { p.MinSteps, p.MaxSteps = 6, 30 },
+		func(st *hx.Step) bool { return isWrite(st) && !(st.Block && !st.StopOnErr) }, covered, changesDatabase)
 	coverageCounters("target_", covered)
+	for _, c := range cases {
+		if changesDatabase(c) {
+			count("effectful_" + c.Kind)
+		}
+	}
 	g := hx.NewGen(seed, hx.Profiles["mixed"])
 	for caseNo, c := range cases {
 		if len(sum.Failures) > 0 {
@@ -186,6 +193,7 @@ func runC07(seed int64, n int) {
 		caseDesc := stepText(st)
 		d0, _ := x.DumpRaw()
 		// fail step k = 1, 2, ... until the operation runs through without the fault firing
+		var silent []string // fault runs that reported success and changed nothing
 		for k := int64(1); k < 200; k++ {
 			hx.Plan.Arm(k, 0, false)
 			gotErr, res := runStepRaw(x, st)
@@ -199,6 +207,14 @@ func runC07(seed int64, n int) {
 			}
 			sum.Cases++
 			if !fired {
+				// the operation ran undisturbed.  If it changes the database, then every fault
+				// run above that reported SUCCESS and changed nothing has told its caller that
+				// the operation took effect when it did not
+				if dk != d0 && len(silent) > 0 && !gotErr && !st.Block { // (a block's own error is looked at in c07Bodies)
+					fail("c07-success-without-effect", fmt.Sprintf("[%s] changes the database when it runs undisturbed; with a failing storage step (%s) it reported success (no error) and changed nothing\n before: %s",
+						caseDesc, silent[0], d0), map[string]any{"op": caseDesc, "fault": silent[0]})
+					break
+				}
 				count("operations_enumerated")
 				count(fmt.Sprintf("steps_%d", steps))
 				distinct(caseDesc)
@@ -226,6 +242,7 @@ func runC07(seed int64, n int) {
 				// nothing changed and no error although a write step failed: only
 				// legitimate when the operation had nothing to do
 				count("fault_without_error_or_change")
+				silent = append(silent, fmt.Sprintf("step %d of %s, result %s", k, trace, res))
 			}
 		}
 		if len(sum.Failures) > 0 {
